@@ -381,6 +381,10 @@ class Builder:
                 elif mode == "single" and not is_opt and k == single_at and not single_done:
                     choice = rng.choice(["M", "M", "M", "T", "X", "A"])
                     single_done = True
+                if choice == "read" and rec.t in (G.T_A, G.T_AAAA) and rec.rd[0] == "raw" and len(rec.rd[1]) == (4 if rec.t == G.T_A else 16):
+                    # the address as the packet has it (special kinds included: mapped, compatible, unspecified ...)
+                    acts += ["i"]
+                    obs += ["i=" + hx(rec.rd[1])]
                 if choice == "T":
                     t = rng.choice([0, 1, 2 ** 32 - 1, rng.getrandbits(32)])
                     rec.ttl = t
@@ -394,6 +398,8 @@ class Builder:
                         obs += ["A=OK", "i=" + hx(ip)]
                     elif rec.t == G.T_AAAA:
                         ip = bytes(rng.getrandbits(8) for _ in range(16))
+                        if rng.random() < 0.3:
+                            ip = rng.choice([b"\0" * 10 + b"\xff\xff" + ip[:4], b"\0" * 12 + ip[:4], b"\0" * 16, b"\0" * 15 + b"\1"])
                         rec.rd = ("raw", ip)
                         acts += ["A" + hx(ip), "i"]
                         obs += ["A=OK", "i=" + hx(ip)]
